@@ -74,6 +74,11 @@ func finalOutsCheck(t *rapid.T, rc *runCase, prop string) {
 	}
 }
 
+// minGoroutines: the lowest number of goroutines seen in this process while
+// waiting for an abandoned Pipestance to fall silent (the level at which only
+// the test and the cached Runtime are alive).
+var minGoroutines = 1 << 30
+
 // reattach replaces rc.sim by a re-attached one that knows the finished and
 // the surviving jobs of the old one.
 func (rc *runCase) reattach(t *rapid.T, prop string, survivors []*simrun.Job) {
@@ -85,7 +90,11 @@ func (rc *runCase) reattach(t *rapid.T, prop string, survivors []*simrun.Job) {
 	for ; waited < 150; waited++ {
 		runtime.Gosched()
 		time.Sleep(time.Millisecond)
-		if waited >= 2 && runtime.NumGoroutine() <= rc.baseG {
+		n := runtime.NumGoroutine()
+		if n < minGoroutines {
+			minGoroutines = n
+		}
+		if waited >= 2 && n <= minGoroutines {
 			break
 		}
 	}
